@@ -4,6 +4,8 @@ package main
 // instantiation as bluge_segment_api documents.
 
 import (
+	"encoding/json"
+	"fmt"
 	"math"
 	"sort"
 
@@ -18,6 +20,44 @@ func B(b []byte) Bytes {
 		r[i] = int(x)
 	}
 	return r
+}
+
+// Large runs of one byte value (megabyte-sized stored values) travel as [-1, value, length]: still a sequence
+// of integers for the specification, which only ever compares stored values for equality.
+func (b Bytes) MarshalJSON() ([]byte, error) {
+	if len(b) >= 4096 {
+		same := true
+		for _, x := range b {
+			if x != b[0] {
+				same = false
+				break
+			}
+		}
+		if same {
+			return []byte(fmt.Sprintf("[-1,%d,%d]", b[0], len(b))), nil
+		}
+	}
+	if b == nil {
+		return []byte("null"), nil
+	}
+	return json.Marshal([]int(b))
+}
+
+func (b *Bytes) UnmarshalJSON(data []byte) error {
+	var raw []int
+	if err := json.Unmarshal(data, &raw); err != nil {
+		return err
+	}
+	if len(raw) == 3 && raw[0] == -1 {
+		r := make(Bytes, raw[2])
+		for i := range r {
+			r[i] = raw[1]
+		}
+		*b = r
+		return nil
+	}
+	*b = Bytes(raw)
+	return nil
 }
 
 func (b Bytes) Raw() []byte {
